@@ -274,6 +274,20 @@ func (p c20) RunBatch(c *fw.Ctx) {
 			}
 		}
 	}
+	// long words: every length 1..80 of one run of letters, with the two endings the REPL appends, queried at every prefix length
+	if c.Batch == 3%c.NBatches {
+		base := strings.Repeat("abcdefghij", 8)
+		for _, n := range []int{1, 15, 16, 17, 31, 32, 33, 34, 63, 64, 65, 80} {
+			words := []string{base[:n], base[:n] + " ", base[:n] + "(", base[:n/2] + "Z"}
+			var qs []string
+			for k := 0; k <= n+1 && k <= len(base); k++ {
+				qs = append(qs, base[:k])
+			}
+			c.Begin(c20Case{Words: fw.QuoteAll(words)})
+			p.run(c, words, qs)
+			c.Count("long_word_sets", 1)
+		}
+	}
 	// REPL path
 	p.replSessions(c, c.Pick(40, 600))
 }
